@@ -89,7 +89,17 @@ func (e *Env) loadL(addr Term, t types.Type, leaves []Leaf) Val {
 			flat[i] = BoolV(term)
 		} else {
 			flat[i] = IntV(term)
+			if l.IsPtr && e.qdepth == 0 && e.x.entry != nil {
+				// well-formedness of the entry heap, instantiated at this address (as for
+				// loads in the code): pointers stored in pre-existing objects point to
+				// pre-existing objects
+				h0 := e.x.initHeap(l.Key, false)
+				e.x.ctx.Assert(Implies(And(Ge(a, "0"), Lt(a, e.x.entry.alloc)), And(Ge(Sel(h0, a), "0"), Lt(Sel(h0, a), e.x.entry.alloc))))
+			}
 		}
+	}
+	if e.qdepth == 0 && e.x.entry != nil {
+		e.x.entryHeapShape(addr, t, leaves)
 	}
 	return e.x.mem.Shape(t, flat)
 }
@@ -529,6 +539,24 @@ func (e *Env) evalCall(c *CCall) TVal {
 			}
 		}
 		return 0, false
+	}
+	if e.qdepth > 0 && ufDiv {
+		// under a quantifier the rounding functions are bare applications of their
+		// uninterpreted symbols: no defining axiom is available for the instances (weaker,
+		// hence sound), but instances whose arguments equal those of a ground occurrence are
+		// equal to it by congruence
+		switch c.Fn {
+		case "tdiv":
+			return mathInt(app("tdivf", argT(0), argT(1)))
+		case "trem":
+			return mathInt(app("tremf", argT(0), argT(1)))
+		case "fdiv":
+			return mathInt(app("fdivf", argT(0), argT(1)))
+		case "cdiv":
+			return mathInt(app("cdivf", argT(0), argT(1)))
+		case "rhe":
+			return mathInt(app("rhef", argT(0), argT(1)))
+		}
 	}
 	if e.qdepth > 0 {
 		switch c.Fn {
